@@ -134,11 +134,11 @@ fn cases(thorough: bool) -> Vec<Case> {
     // 3. extension merging of every kind, across two files, with descriptions that stress the template-literal layer
     let desc_block = "\"\"\"\nback`tick ${not} a \\ slash $ { } `` $${x}\nsecond line\n\"\"\"\n";
     let f0 = format!(
-        "{prelude}{desc_block}type Query @tag(name: \"q\") {{ a: Int }}\n\"plain doc\" enum Color {{ RED }}\nunion U = Query\ninput In {{ a: Int = 1 }}\ninterface Node {{ id: ID }}\ninterface Res {{ id: ID extra: Int }}\nscalar Date @tag(name: \"s\") {ts}\nschema @tag(name: \"sch\") {{ query: Query }}\ntype M {{ m: Int }}\n"
+        "{prelude}{desc_block}type Query @tag(name: \"q\") {{ a: Int }}\n\"plain doc\" enum Color {{ RED }}\nunion U = Query\nunion Five = Query | M | T1 | T2 | T3\ntype T1 {{ a: Int }}\ntype T2 {{ a: Int }}\ntype T3 {{ a: Int }}\ntype T4 {{ a: Int }}\ninput In {{ a: Int = 1 }}\ninterface Node {{ id: ID }}\ninterface Res {{ id: ID extra: Int }}\nscalar Date @tag(name: \"s\") {ts}\nschema @tag(name: \"sch\") {{ query: Query }}\ntype M {{ m: Int }}\n"
     );
-    let f1 = "extend type Query implements Node @tag(name: \"q2\") { id: ID extra: Int b(x: In = {a: 2}, l: [Color!] = [RED]): U @deprecated }\nextend enum Color @tag(name: \"e\") { GREEN @tag(name: \"v\") }\nextend union U @tag(name: \"u\") = M\nextend input In { b: [In!] c: String = \"s\" }\nextend interface Node @tag(name: \"n\") { extra: Int }\nextend interface Res implements Node @tag(name: \"r\") { more: Int }\nextend scalar Date @tag(name: \"s2\")\nextend schema { mutation: M }\n".to_string();
+    let f1 = "extend type Query implements Node @tag(name: \"q2\") { id: ID extra: Int b(x: In = {a: 2}, l: [Color!] = [RED]): U @deprecated }\nextend enum Color @tag(name: \"e\") { GREEN @tag(name: \"v\") }\nextend union U @tag(name: \"u\") = M\nextend union Five = T4\nextend input In { b: [In!] c: String = \"s\" }\nextend interface Node @tag(name: \"n\") { extra: Int }\nextend interface Res implements Node @tag(name: \"r\") { more: Int }\nextend scalar Date @tag(name: \"s2\")\nextend schema { mutation: M }\n".to_string();
     let expected = format!(
-        "{prelude}{desc_block}type Query implements Node @tag(name: \"q\") @tag(name: \"q2\") {{ a: Int id: ID extra: Int b(x: In = {{a: 2}}, l: [Color!] = [RED]): U @deprecated }}\n\"plain doc\" enum Color @tag(name: \"e\") {{ RED GREEN @tag(name: \"v\") }}\nunion U @tag(name: \"u\") = Query | M\ninput In {{ a: Int = 1 b: [In!] c: String = \"s\" }}\ninterface Node @tag(name: \"n\") {{ id: ID extra: Int }}\ninterface Res implements Node @tag(name: \"r\") {{ id: ID extra: Int more: Int }}\nscalar Date @tag(name: \"s\") @tag(name: \"s2\")\nschema @tag(name: \"sch\") {{ query: Query mutation: M }}\ntype M {{ m: Int }}\n"
+        "{prelude}{desc_block}type Query implements Node @tag(name: \"q\") @tag(name: \"q2\") {{ a: Int id: ID extra: Int b(x: In = {{a: 2}}, l: [Color!] = [RED]): U @deprecated }}\n\"plain doc\" enum Color @tag(name: \"e\") {{ RED GREEN @tag(name: \"v\") }}\nunion U @tag(name: \"u\") = Query | M\nunion Five = Query | M | T1 | T2 | T3 | T4\ntype T1 {{ a: Int }}\ntype T2 {{ a: Int }}\ntype T3 {{ a: Int }}\ntype T4 {{ a: Int }}\ninput In {{ a: Int = 1 b: [In!] c: String = \"s\" }}\ninterface Node @tag(name: \"n\") {{ id: ID extra: Int }}\ninterface Res implements Node @tag(name: \"r\") {{ id: ID extra: Int more: Int }}\nscalar Date @tag(name: \"s\") @tag(name: \"s2\")\nschema @tag(name: \"sch\") {{ query: Query mutation: M }}\ntype M {{ m: Int }}\n"
     );
     v.push(Case { label: "all kinds extended, two files, extensions after the definitions".into(), plugin: false, files: vec![f0.clone(), f1.clone()], expected: expected.clone() });
     v.push(Case { label: "all kinds extended, two files, extensions first".into(), plugin: false, files: vec![f1.clone(), f0.clone()], expected: expected.clone() });
